@@ -923,10 +923,10 @@ class QMI_TcpTransport(QMI_SocketTransport):
         super()._open_transport()
         # Create socket and connect.
         self._socket = socket.socket(socket.AF_INET, socket.SOCK_STREAM)
-        self._socket.settimeout(self._connect_timeout)
-        # Set TCP_NODELAY socket option.
-        self._socket.setsockopt(socket.IPPROTO_TCP, socket.TCP_NODELAY, 1)
         try:
+            self._socket.settimeout(self._connect_timeout)
+            # Set TCP_NODELAY socket option.
+            self._socket.setsockopt(socket.IPPROTO_TCP, socket.TCP_NODELAY, 1)
             self._socket.connect(self._address)
         except socket.timeout as e:
             self._socket.close()
